@@ -31,6 +31,7 @@ CONSTANTS Levels,     \* levels of records and of Enabled probes
           Groups,     \* ids of group names given to WithGroup
           Msgs,       \* message ids
           Outcomes,   \* what the inner Handle returns: "nil" or an error id
+          OpKinds,    \* which operations the run enumerates
           MaxH, MaxI, \* bounds on LevelHandlers and inner objects
           MaxOps
 
@@ -118,7 +119,7 @@ Do(o) ==
       [] o[1] = "unwrap"  -> Unwrap(o[2])
       [] o[1] = "setlevel" -> SetLevel(o[2], o[3])
 
-Ops ==
+AllOps ==
     {<<"new", v, i>> : v \in 1..NLev, i \in 1..Len(inn)}
     \cup {<<"rewrap", v, g>> : v \in 1..NLev, g \in Handlers}
     \cup {<<"attrs", h, b>> : h \in Handlers, b \in Batches}
@@ -128,6 +129,7 @@ Ops ==
     \cup {<<"log", h, l, m>> : h \in Handlers, l \in Levels, m \in Msgs}
     \cup {<<"unwrap", h>> : h \in Handlers}
     \cup {<<"setlevel", v, x>> : v \in 1..NLev, x \in LvValues}
+Ops == {o \in AllOps : o[1] \in OpKinds}
 
 LNext == nops < MaxOps /\ nops' = nops + 1 /\ \E o \in Ops : Do(o)
 LSpec == LInit /\ [][LNext]_lvars
